@@ -706,6 +706,7 @@ def generate():
                                                "(self._distinguishers() == them._distinguishers())"], cls + ".__eq__")
         need(P.find_def(rm, cls + ".__hash__"), ["return hash(self._distinguishers())"], cls + ".__hash__")
         need(P.find_def(rm, cls + ".__ne__"), ["return not self == them"], cls + ".__ne__")
+        need(P.find_def(rm, cls + ".__lt__"), ["return self._distinguishers() < them._distinguishers()"], cls + ".__lt__")
     # the copy path (a SturdyRef that ARRIVES): only the four attributes of the model's record are taken from the state
     scs = P.find_def(rm, "SturdyRef.setCopyableState")
     loops = [n for n in scs.body if isinstance(n, ast.For)]
@@ -763,6 +764,29 @@ def generate():
               "(host, portnum) = (mo.group(1), int(mo.group(3)) if mo.group(3) else None)",
               "ep = SAMI2PStreamClientEndpoint.new(self._sam_endpoint, host, portnum, **kwargs)",
               "return (ep, host)"], "i2p hint_to_endpoint")
+    # how the handler's own keyword arguments (a default port=...) meet the port of the hint: the statements between
+    # the kwargs copy and the endpoint constructor, statement by statement
+    body = [st for st in ih.body if not (isinstance(st, ast.Expr) and isinstance(st.value, ast.Constant))]
+    texts = [" ".join(ast.unparse(st).replace('"', "'").split()) for st in body]
+    try:
+        i0 = texts.index("kwargs = self._kwargs.copy()")
+        i1 = [i for i, t in enumerate(texts) if t.startswith("ep = SAMI2PStreamClientEndpoint.new(")][0]
+    except (ValueError, IndexError):
+        U("i2p hint_to_endpoint: the kwargs copy / endpoint constructor statements were not found")
+    between = texts[i0 + 1:i1]
+    current = ["if not portnum and 'port' in kwargs: portnum = kwargs.pop('port')"]
+    import re as _re
+    mrep = _re.fullmatch(r"(\w+) = kwargs\.pop\('port', None\)", between[0]) if len(between) == 2 else None
+    if between == current:
+        pops = False                 # the form before 733f931: 'port' stays in the kwargs when the hint has its own port
+    elif mrep and mrep.group(1) not in ("portnum", "kwargs", "host", "self", "mo") and between[1] == "if not portnum: portnum = %s" % mrep.group(1):
+        pops = True                  # 'port' always removed; the hint's own non-zero port wins, else the default (or None)
+    else:
+        U("i2p hint_to_endpoint: the handling of a default port= keyword argument is no longer one of the known forms: %r" % (between,))
+    if [t for t in texts[:i0] if "kwargs" in t] or i1 != len(texts) - 2:
+        U("i2p hint_to_endpoint: kwargs are used outside the modelled statements")
+    out.append("(* does _RunningI2P.hint_to_endpoint remove 'port' from its keyword arguments on every path? *)")
+    out.append("Definition I2P_POPS_PORT : bool := %s." % ("true" if pops else "false"))
 
     # ---- connection.py: how a handler is chosen
     cm = P.load("connection.py")
